@@ -20,6 +20,7 @@ DOC = {
     'R9': 'one struct field type replaced by an opaque stand-in (Vec<Box<dyn Mutator>> is outside Verus)',
     'R10': 'top-level `match opcode {..}` split into one function per arm plus a generated dispatcher that is itself verified against the shared contract',
     'R11': 'is_some_and(|c| E) -> match on the Option with the closure body inlined',
+    'R14': 'ghost threading: calls of contracted functions get ghost arguments (Ghost(..)) appended and ghost bookkeeping statements after them; executable arguments unchanged',
     'R12': 'statement-level text substitution listed in the template (exact old text -> new text), used for std calls Verus has no spec for',
 }
 
@@ -170,7 +171,40 @@ def r12(text, args, label):
     return text[:a] + out + text[b:]
 
 
-RULES = {'R1': r1, 'R2': r2, 'R3': r3, 'R11': r11, 'R12': r12}
+def r14(text, args, label):
+    """Ghost threading: every call statement `self.F(ARGS);` (or expression `self.F(ARGS)`) of a
+    contracted function F gets ghost arguments appended and ghost bookkeeping after it.
+    args = [F, template...]; in the template `$ARGS` is the original argument list and `$1` the first
+    argument.  Only ghost text is added; the executable call keeps its original arguments."""
+    fname = args[0]
+    tmpl = ' '.join(args[1:])
+    m = mask(text)
+    out = []
+    pos = 0
+    count = 0
+    for mm in re.finditer(r'self\s*\.\s*%s\s*\(' % re.escape(fname), m):
+        o = mm.end() - 1
+        c = match_close(m, o)
+        arglist = text[o + 1:c].strip()
+        first = arglist.split(',')[0].strip() if arglist else ''
+        # statement form `...;` -> replace including the semicolon
+        end = c + 1
+        k = end
+        while k < len(m) and m[k].isspace():
+            k += 1
+        stmt = k < len(m) and m[k] == ';'
+        rep = tmpl.replace('$ARGS', arglist).replace('$1', first)
+        out.append(text[pos:mm.start()])
+        out.append(rep)
+        pos = (k + 1) if (stmt and rep.rstrip().endswith('}')) else end
+        count += 1
+    if count == 0:
+        raise LostAnchor('%s: R14 no call of %s' % (label, fname))
+    out.append(text[pos:])
+    return ''.join(out)
+
+
+RULES = {'R14': r14, 'R1': r1, 'R2': r2, 'R3': r3, 'R11': r11, 'R12': r12}
 
 
 def apply(name, text, args, label):
